@@ -138,6 +138,23 @@ func pollingEffects(c *core.Ctx, R string) {
 				keyf("a SetStatusCode on every path to this return: %v; a Write: %v", g.DominatesAny(sets, r.Loc), g.DominatesAny(writes, r.Loc)))
 		}
 		c.Need(R, "exits of an admitted data request", nExit, 3)
+		// the claim is released before an error is reported: OnError closes the session, the session closes the transport,
+		// and DoClose answers a data request that is still claimed with 429 — the documented 400 would be refused (s239)
+		nErr := 0
+		for _, cl := range u.Calls() {
+			if cl.Name != "OnError" || !g.GuardedBy(cl.Loc, won) {
+				continue // the refused overlap reports while the first request still holds the claim: that one is aborted by design
+			}
+			nErr++
+			released := false
+			for _, k := range u.Calls() {
+				if (mLocalCall("cleanup")(u, k) || mFieldStoreNil("polling.dataCtx")(u, k)) && g.Dominates(k.Loc, cl.Loc) {
+					released = true
+				}
+			}
+			c.Check(R, keyf("%s/OnError#%d-after-the-claim-is-released", polOnData, nErr), cl.Pos(), released, "cleanup() (or dataCtx.Store(nil)) on every path to this OnError")
+		}
+		c.Need(R, "error reports in onDataRequest", nErr, 2)
 		if k := c.KidOf(R, u, "onClose"); k != nil {
 			requireEffects(c, R, k, []effect{
 				{name: "cleanup()", match: mLocalCall("cleanup")},
